@@ -35,6 +35,10 @@ DOCS = [
     ('k', 'strict', '\\c+ \\t{x}$\\q{y}$', ['t', 'm'], False),
     ('k', 'tolerant', 'a \\m } b \\v{u{v}w}', ['m', 'v'], True),
     ('k', 'strict', '\\begin{e}[o]{m} x \\end{e}\\begin{q}y\\end{q}', ['o', 'm'], False),
+    ('kext', 'strict', '\\tens^{i}{R} \\emb|{x}', ['e', 'm'], False),
+    ('kext', 'strict', '\\tens_{j}^{i}{R} \\tens{S} \\emb^a_b', ['e', 'm'], False),
+    ('kext', 'strict', '\\any(a)\\any<b>\\anyo[c]{d}\\anyo{e} \\s*+{x}\\s+{y}', ['any', 's', 't', 'm'], False),
+    ('kext', 'tolerant', '\\begin{e}_{x} \\tens^ \\v{p{q}r} \\end{e} \\any', ['e', 'v', 'any'], True),
     ('default', 'strict', '\\textbf{a} \\verb|x| $\\frac{a}{b}$ \\\\*[2mm] \\item[x]', ['m', 's', 'o'], False),
     ('default', 'tolerant', '\\begin{verbatim}x{\\end{verbatim} \\sqrt[3]{x} \\begin{itemize', ['m', 'o'], False),
     ('default', 'strict', '\\section*{T} \\cite[a][b]{k} \\newcommand*{\\x}[1][d]{#1}', ['s', 'o', 'm'], False),
